@@ -69,6 +69,19 @@ fn streams(thorough: bool) -> Streams {
     let mut t = scen::stream_lzma2(1, 5, 0, false, None).0;
     t.push(0x00);
     r2.push(("lz1+5+trail1".into(), t, None, 2));
+    // chunk-kind sequences inside units (R = incompressible segment, T = text): uncompressed chunk first and an LZMA chunk with
+    // new properties after it (01.c0), state resets after uncompressed chunks inside a unit (e0.02.a0), both in two units
+    let rt = vec![(true, 100), (false, UNIT - 100)];
+    let trt = vec![(false, 1000), (true, 100), (false, UNIT - 1100)];
+    let rtrt = vec![(true, 100), (false, 500), (true, 100), (false, UNIT - 700)];
+    for (name, pat, units) in [("mixRT", vec![rt.clone()], 1usize), ("mixRT-TRT", vec![rt.clone(), trt.clone()], 2), ("mixRTRT", vec![rtrt.clone()], 1), ("mixTRT-RT", vec![trt.clone(), rt.clone()], 2)] {
+        let st = scen::stream_lzma2_pattern(&pat, None).0;
+        r2.push((format!("{name}[{}]", scen::controls(&st)), st, None, units));
+    }
+    {
+        let st = scen::stream_lzma2_pattern(&[rt.clone()], Some(&preset)).0;
+        r2.push((format!("preset-mixRT[{}]", scen::controls(&st)), st, Some(preset.clone()), 1));
+    }
     if thorough {
         r2.push(("lz3+5".into(), scen::stream_lzma2(3, 5, 0, false, None).0, None, 4));
         r2.push(("lz5".into(), scen::stream_lzma2(5, 0, 0, false, None).0, None, 5));
